@@ -107,6 +107,9 @@ inductive PenOp
   | copyAttr (t : Tmpl)
   /-- `tickit_pen_set_colour_attr_desc(pen, TICKIT_PEN_FG, "n")` or `"n#rrggbb"` -/
   | desc (n : Int) (rgb : Option Nat)
+  /-- a colour description `tickit_pen_set_colour_attr_desc` rejects (`"hi-<n>"` with `n > 7`, an unknown name): it returns
+      false before anything is frozen or set -/
+  | rejected
   deriving DecidableEq, Repr
 
 /-- is the whole operation one freeze..thaw region? -/
@@ -122,6 +125,7 @@ def PenOp.body : PenOp → List PenStep
   | .copy t ow => [.loopFg t ow, .loopBold t ow]
   | .copyAttr t => [.copyAttrFg t]
   | .desc n rgb => [.setCol n] ++ (match rgb with | some r => [.setRgb r] | none => [])
+  | .rejected => []
 
 /-- inside the region of `tickit_pen_copy_attr` for the colour (the source is read first): set the index, then the
     RGB8 if the source has one -/
